@@ -485,12 +485,21 @@ func vFieldLogBegin(label string, own *clientState) {}
 func vFieldLogEnd()                                 {}
 
 // vRacePair runs command a on c1 and command b on c2 concurrently.
-func vRacePair(disp *cmdDispatcher, c1, c2 *clientState, a, b int) {
+func vRacePair(disp *cmdDispatcher, c1, c2 *clientState, a, b int, am, bm bool) {
 	n := len(vSessionCommands)
-	run := func(c *clientState, i int, done chan struct{}) {
+	run := func(c *clientState, i int, inMulti bool, done chan struct{}) {
 		defer func() { recover(); done <- struct{}{} }()
 		for k := 0; k < 300; k++ {
 			if i < n {
+				if inMulti && vSessionCommands[i][0] != "MULTI" {
+					// queued in a transaction and run by EXEC
+					vCmd(c, "MULTI")
+					vCmd(c, vSessionCommands[i]...)
+					if c.cmdQueue != nil {
+						vCmd(c, "EXEC")
+					}
+					continue
+				}
 				vCmd(c, vSessionCommands[i]...)
 				if vSessionCommands[i][0] == "MULTI" {
 					vCmd(c, "DISCARD")
@@ -502,8 +511,8 @@ func vRacePair(disp *cmdDispatcher, c1, c2 *clientState, a, b int) {
 		}
 	}
 	done := make(chan struct{}, 2)
-	go run(c1, a, done)
-	go run(c2, b, done)
+	go run(c1, a, am, done)
+	go run(c2, b, bm, done)
 	<-done
 	<-done
 }
